@@ -1,42 +1,75 @@
 /-
   C17 line-protocol driver: one observed operator execution per line, fields separated by " | ",
-  integers in decimal, doubles as u64 bit patterns.
+  integers in decimal, doubles as u64 bit patterns.  The interval lists / boxes / weight intervals in the
+  headers are the ones the REQUEST wrote (composed by the checker), never what the library recorded.
 
-    GC <lo hi>… | genome                                      -> ok | bad <why>        i_ga(problem)
-    GM <lo hi>… | pre | post | ret agePre agePost             -> ok | bad              i_ga::mutation
-    GX <lo hi>… | lhs | rhs | child | ageL ageR ageC          -> ok | bad              crossover(lhs, rhs)
-    DC <lo hi>… | genome                                      -> ok <#genes == hi> | bad   i_de(problem)
-    DX p wlo whi | target | a | b | c | trial | aT aA aB aC aTrial
-                                                              -> ok <Fmin> <Fmax> | bad <why> | nan
-  DX decides: is there ONE double F in [wlo, whi] with, for every position i, trial[i] = target[i] or
-  trial[i] = c[i] + F*(a[i] − b[i]) (IEEE double, evaluated like the code), the last position being
-  the mutant?  `F ↦ c + F·d` is monotone, so the admissible F of one position form an interval of
-  doubles found by bisection on the bit patterns; the intervals are intersected.
+    <slots> = positions separated by "/", each position `lo hi [lo hi]…` (the terminals of that category)
+
+    GC <slots> | genome | age                                   -> ok | bad <why>     i_ga(problem)
+    GM <slots> | pre | post | ret agePre agePost | livedPre     -> ok | bad           i_ga::mutation
+    GX <slots> | lhs | rhs | child | ageL ageR ageC | livedL livedR -> ok | bad       crossover(lhs, rhs)
+    GS <slots> | pcbits pmbits brood | p1 | cand ; cand… | off | livedP1 | livedCands | ageOff | dcross dmut
+                                                                -> ok | bad           recombination::base::run
+    AG inc|load base incs lived observed                        -> ok | bad           age through inc_age / load,
+                       replayed through the EXTRACTED age code (Gen.age) at its machine types
+    DC <box slots> | genome | age                               -> ok | bad           i_de(problem): lo ≤ x < hi
+    DX p wlo whi | target | a | b | c | trial | aT aA aB aC aTrial | lT lA lB lC
+                                                                -> ok <Fmin> <Fmax> | bad <why> | nan
+    DS p wlo whi | target | aCand ; … | pop ; … | off | livedT | livedACands | livedPop | ageOff
+                                                                -> ok <a> <b> <c> | bad | nan   recombination::de::run
+    LW lo hi | w | u y x | …                                    -> ok <#x==hi> | bad  IEEE law instances
+  DX decides: is there ONE double F in the weight interval (`[wlo, whi)`, or `{wlo}` when wlo = whi) with, for every
+  position i, trial[i] = target[i] or trial[i] = c[i] + F*(a[i] − b[i]) (IEEE double, evaluated like the code), the
+  last position being the mutant?  `F ↦ c + F·d` is monotone, so the admissible F of one position form an
+  interval of doubles found by bisection on the bit patterns; the intervals are intersected.
 -/
 import Vita.C17.Model
-open Vita.C17
+import Vita.C17.Gen
+open Vita.C17 Vita.C17.M Vita.C17.Code
 
-instance (rs : List Iv) (g : List Int) : Decidable (InRange rs g) := by
+instance (ss : List Slot) (g : List Int) : Decidable (InRange ss g) := by
   unfold InRange; exact inferInstance
 
-instance (rs : List Iv) (pre post : Ga) (ret : Nat) : Decidable (MutStep rs pre post ret) := by
+instance (ss : List Slot) (pre post : Ga) (ret : Nat) : Decidable (MutStep ss pre post ret) := by
   unfold MutStep; exact inferInstance
 
 instance (l r child : Ga) : Decidable (XoStep l r child) := by
   unfold XoStep; exact inferInstance
+
+instance (ss : List Slot) (brood : Nat) (p1 : Ga) (cands : List Ga) (off : Ga) (dc dm : Nat) :
+    Decidable (GsStep ss brood p1 cands off dc dm) := by
+  unfold GsStep; exact inferInstance
 
 def words (s : String) : List String := (s.trimAscii.toString.splitOn " ").filter (· ≠ "")
 
 def ints (s : String) : Option (List Int) := (words s).mapM String.toInt?
 def nats (s : String) : Option (List Nat) := (words s).mapM String.toNat?
 
-def ranges : List Int → Option (List Iv)
+def pairs : List Int → Option (List Iv)
   | [] => some []
-  | lo :: hi :: r => (ranges r).map (⟨lo, hi⟩ :: ·)
+  | lo :: hi :: r => (pairs r).map (⟨lo, hi⟩ :: ·)
   | _ => none
+
+/-- `lo hi lo hi / lo hi / …` -/
+def slotsOf (ws : List String) : Option (List Slot) :=
+  let groups := (" ".intercalate ws).splitOn "/"
+  groups.mapM fun g => ((words g).mapM String.toInt?).bind pairs
 
 def floats (s : String) : Option (List Float) :=
   (nats s).map fun l => l.map fun n => Float.ofBits n.toUInt64
+
+def fpairs : List Float → Option (List (Float × Float))
+  | [] => some []
+  | lo :: hi :: r => (fpairs r).map ((lo, hi) :: ·)
+  | _ => none
+
+def boxOf (ws : List String) : Option (List (List (Float × Float))) :=
+  let groups := (" ".intercalate ws).splitOn "/"
+  groups.mapM fun g => (floats g).bind fpairs
+
+/-- genomes separated by ";" -/
+def intGenomes (s : String) : Option (List (List Int)) := (s.splitOn ";").mapM ints
+def floatGenomes (s : String) : Option (List (List Float)) := (s.splitOn ";").mapM floats
 
 /-- order-preserving key of a non-NaN double (−0 and +0 share key 0) -/
 def key (x : Float) : Int :=
@@ -62,7 +95,6 @@ def firstTrue (p : Int → Bool) (lo hi : Int) : Int := Id.run do
 def admissible (c d t : Float) (lo hi : Int) : Int × Int :=
   let h (k : Int) : Float := c + unkey k * d
   if d > 0 then
-    -- h nondecreasing: first k with h ≥ t … last k with h ≤ t
     let a := firstTrue (fun k => h k ≥ t) lo hi
     let b := firstTrue (fun k => h k > t) lo hi - 1
     (a, b)
@@ -72,80 +104,189 @@ def admissible (c d t : Float) (lo hi : Int) : Int × Int :=
     (a, b)
   else if feq (h lo) t then (lo, hi) else (1, 0)
 
-def deAnswer (wlo whi : Float) (tg a b c tr : List Float) (ages : List Nat) : String := Id.run do
+/-- the weight interval as keys: `[wlo, whi)`, or `{wlo}` for the degenerate configuration wlo = whi -/
+def weightKeys (wlo whi : Float) : Option (Int × Int) :=
+  if wlo < whi then some (key wlo, key whi - 1)
+  else if wlo == whi then some (key wlo, key wlo)
+  else none
+
+def deForm (wlo whi : Float) (tg a b c tr : List Float) : String := Id.run do
   let n := tg.length
   if n = 0 ∨ a.length ≠ n ∨ b.length ≠ n ∨ c.length ≠ n then return "bad-op"
   if tr.length ≠ n then return "bad length"
-  match ages with
-  | [aT, aA, aB, aC, aTr] =>
-    if aTr ≠ max (max aT aC) (max aA aB) then return "bad age"
-  | _ => return "bad-op"
   if (tg ++ a ++ b ++ c ++ tr).any (fun x => x.isNaN || x.isInf) then return "nan"
-  if ¬ (wlo ≤ whi) then return "bad-op"
-  let mut lo := key wlo
-  let mut hi := key whi
-  for i in [0:n] do
-    let t := tr[i]!
-    let forced := (i == n - 1) || !(feq t tg[i]!)
-    if forced then
-      let d := a[i]! - b[i]!
-      if d.isNaN || d.isInf then return "nan"
-      let (x, y) := admissible c[i]! d t lo hi
-      lo := x
-      hi := y
-      if lo > hi then return s!"bad no-single-F position {i}"
-  return s!"ok {(unkey lo).toBits} {(unkey hi).toBits}"
+  match weightKeys wlo whi with
+  | none => return "bad-op"
+  | some (l0, h0) =>
+    let mut lo := l0
+    let mut hi := h0
+    for i in [0:n] do
+      let t := tr[i]!
+      let forced := (i == n - 1) || !(feq t tg[i]!)
+      if forced then
+        let d := a[i]! - b[i]!
+        if d.isNaN || d.isInf then return "nan"
+        let (x, y) := admissible c[i]! d t lo hi
+        lo := x
+        hi := y
+        if lo > hi then return s!"bad no-single-F position {i}"
+    return s!"ok {(unkey lo).toBits} {(unkey hi).toBits}"
+
+def max4 (a b c d : Nat) : Nat := max (max a b) (max c d)
+
+def deAnswer (wlo whi : Float) (tg a b c tr : List Float) (ages lived : List Nat) : String :=
+  match ages, lived with
+  | [aT, aA, aB, aC, aTr], [lT, lA, lB, lC] =>
+    if aT ≠ lT ∨ aA ≠ lA ∨ aB ≠ lB ∨ aC ≠ lC then "bad age-not-generations-lived"
+    else if aTr ≠ max4 lT lA lB lC then "bad age"
+    else deForm wlo whi tg a b c tr
+  | _, _ => "bad-op"
+
+/-- recombination::de::run: is there an `a` among the candidates and `b`, `c` in the population explaining the offspring? -/
+def dsAnswer (wlo whi : Float) (tg : List Float) (aC : List (List Float)) (pop : List (List Float)) (off : List Float)
+    (lT : Nat) (lA : List Nat) (lP : List Nat) (ageOff : Nat) : String := Id.run do
+  if aC.length ≠ lA.length ∨ pop.length ≠ lP.length then return "bad-op"
+  let mut sawNan := false
+  let mut why := "bad no-candidates"
+  for ia in [0:aC.length] do
+    for ib in [0:pop.length] do
+      for ic in [0:pop.length] do
+        if ageOff = max4 lT lA[ia]! lP[ib]! lP[ic]! then
+          let r := deForm wlo whi tg aC[ia]! pop[ib]! pop[ic]! off
+          if r.startsWith "ok" then return s!"ok {ia} {ib} {ic}"
+          if r == "nan" then sawNan := true
+          if r.startsWith "bad-op" then return r
+          why := "bad no-(a,b,c)-and-F-explain-the-offspring"
+        else if why == "bad no-candidates" then why := "bad age"
+  return if sawNan then "nan" else why
+
+/-- the age an individual has after `load base` (or starting at 0) and `incs` calls of `inc_age()`, through the
+    extracted code at its machine types -/
+def ageReplay (how : String) (base incs : Nat) : Option Int := Id.run do
+  let mut s : Int := 0
+  if how == "load" then
+    match Gen.age.load base with
+    | some v => s := v
+    | none => return none
+  for _ in [0:incs] do
+    s := Gen.age.incr s
+  return some (Gen.age.read s)
+
+def lawAnswer (lo hi w : Float) (rows : List (List Float)) : String := Id.run do
+  if ¬ (w == hi - lo) ∨ (hi - lo).isNaN then return "bad w"
+  let mut athi := 0
+  let mut prevy : Float := 0.0
+  let mut first := true
+  for r in rows do
+    match r with
+    | [u, y, x] =>
+      if ¬ feq y (u * w) then return "bad y differs from the driver's product"
+      if ¬ feq x (lo + y) then return "bad x differs from the driver's sum"
+      if w.isInf then continue
+      if ¬ (0.0 ≤ y ∧ y ≤ w) then return "bad law: 0 ≤ fl(u·w) ≤ w"
+      if ¬ first ∧ ¬ (prevy ≤ y) then return "bad law: monotone"
+      if ¬ (lo ≤ x ∧ x ≤ hi) then return "bad law: closed box"
+      if y == w ∧ u < 1.0 ∧ ¬ (lo + w == hi ∧ hi - w == lo) then return "bad law: absorbed product with inexact width"
+      if x == hi then athi := athi + 1
+      prevy := y
+      first := false
+    | _ => return "bad-op"
+  return s!"ok {athi}"
+
+def mkGa (g : List Int) (a : Nat) : Ga := ⟨g, a⟩
 
 def answer (line : String) : String :=
   match line.splitOn " | " with
-  | [hd, g] =>
+  | [hd] =>
     match words hd with
-    | "GC" :: rest =>
-      match (rest.mapM String.toInt?).bind ranges, ints g with
-      | some rs, some g => if decide (InRange rs g) then "ok" else "bad InRange"
-      | _, _ => "bad-op"
-    | "DC" :: rest =>
-      match rest.mapM String.toNat?, floats g with
-      | some bs, some g =>
-        let fs := bs.map fun n => Float.ofBits n.toUInt64
-        if fs.length ≠ 2 * g.length then "bad length" else Id.run do
-          let mut athi := 0
-          for i in [0:g.length] do
-            let lo := fs[2 * i]!
-            let hi := fs[2 * i + 1]!
-            let x := g[i]!
-            if ¬ (lo ≤ x ∧ x ≤ hi) then return s!"bad box position {i}"
-            if x == hi then athi := athi + 1
-          return s!"ok {athi}"
-      | _, _ => "bad-op"
-    | _ => "bad-op"
-  | [hd, pre, post, e] =>
-    match words hd with
-    | "GM" :: rest =>
-      match (rest.mapM String.toInt?).bind ranges, ints pre, ints post, nats e with
-      | some rs, some pre, some post, some [ret, a0, a1] =>
-        if ¬ decide (InRange rs pre) then "bad pre-not-in-range"
-        else if decide (MutStep rs ⟨pre, a0⟩ ⟨post, a1⟩ ret) then "ok" else "bad MutStep"
+    | ["AG", how, base, incs, lived, obs] =>
+      match base.toNat?, incs.toNat?, lived.toNat?, obs.toNat? with
+      | some base, some incs, some lived, some obs =>
+        if how ≠ "inc" ∧ how ≠ "load" then "bad-op"
+        else if lived ≥ 4294967296 then "bad-op"
+        else if (how == "load" ∧ lived ≠ base + incs) ∨ (how == "inc" ∧ lived ≠ incs) then "bad-op"
+        else if obs ≠ lived then "bad age-not-generations-lived"
+        else match ageReplay how base incs with
+          | some v => if v = (obs : Int) then "ok" else s!"bad extracted-age-code-gives {v}"
+          | none => "bad extracted-load-fails"
       | _, _, _, _ => "bad-op"
     | _ => "bad-op"
-  | [hd, l, r, ch, e] =>
+  | [hd, g, e] =>
     match words hd with
-    | "GX" :: rest =>
-      match (rest.mapM String.toInt?).bind ranges, ints l, ints r, ints ch, nats e with
-      | some rs, some l, some r, some ch, some [al, ar, ac] =>
-        if ¬ (decide (InRange rs l) ∧ decide (InRange rs r)) then "bad parents-not-in-range"
-        else if ¬ decide (XoStep ⟨l, al⟩ ⟨r, ar⟩ ⟨ch, ac⟩) then "bad XoStep"
-        else if ¬ decide (InRange rs ch) then "bad InRange"
-        else "ok"
+    | "GC" :: rest =>
+      match slotsOf rest, ints g, nats e with
+      | some ss, some g, some [age] =>
+        if age ≠ 0 then "bad age" else if decide (InRange ss g) then "ok" else "bad InRange"
+      | _, _, _ => "bad-op"
+    | "DC" :: rest =>
+      match boxOf rest, floats g, nats e with
+      | some box, some g, some [age] =>
+        if age ≠ 0 then "bad age"
+        else if box.length ≠ g.length then "bad length" else Id.run do
+          for i in [0:g.length] do
+            let x := g[i]!
+            if ¬ (box[i]!.any fun (lo, hi) => lo ≤ x ∧ x < hi) then return s!"bad box position {i}"
+          return "ok"
+      | _, _, _ => "bad-op"
+    | ["LW", lo, hi] =>
+      match lo.toNat?, hi.toNat?, floats g, (e.splitOn " ; ").mapM floats with
+      | some lo, some hi, some [w], some rows =>
+        lawAnswer (Float.ofBits lo.toUInt64) (Float.ofBits hi.toUInt64) w rows
+      | _, _, _, _ => "bad-op"
+    | _ => "bad-op"
+  | [hd, pre, post, e, lv] =>
+    match words hd with
+    | "GM" :: rest =>
+      match slotsOf rest, ints pre, ints post, nats e, nats lv with
+      | some ss, some pre, some post, some [ret, a0, a1], some [l0] =>
+        if ¬ decide (InRange ss pre) then "bad pre-not-in-range"
+        else if a0 ≠ l0 then "bad age-not-generations-lived"
+        else if decide (MutStep ss ⟨pre, l0⟩ ⟨post, a1⟩ ret) then "ok" else "bad MutStep"
       | _, _, _, _, _ => "bad-op"
     | _ => "bad-op"
-  | [hd, tg, a, b, c, tr, e] =>
+  | [hd, l, r, ch, e, lv] =>
+    match words hd with
+    | "GX" :: rest =>
+      match slotsOf rest, ints l, ints r, ints ch, nats e, nats lv with
+      | some ss, some l, some r, some ch, some [al, ar, ac], some [ll, lr] =>
+        if ¬ (decide (InRange ss l) ∧ decide (InRange ss r)) then "bad parents-not-in-range"
+        else if al ≠ ll ∨ ar ≠ lr then "bad age-not-generations-lived"
+        else if ¬ decide (XoStep ⟨l, ll⟩ ⟨r, lr⟩ ⟨ch, ac⟩) then "bad XoStep"
+        else if ¬ decide (InRange ss ch) then "bad InRange"
+        else "ok"
+      | _, _, _, _, _, _ => "bad-op"
+    | _ => "bad-op"
+  | [hd, tg, a, b, c, tr, e, lv] =>
     match words hd with
     | ["DX", _p, wlo, whi] =>
-      match wlo.toNat?, whi.toNat?, floats tg, floats a, floats b, floats c, floats tr, nats e with
-      | some wlo, some whi, some tg, some a, some b, some c, some tr, some ages =>
-        deAnswer (Float.ofBits wlo.toUInt64) (Float.ofBits whi.toUInt64) tg a b c tr ages
-      | _, _, _, _, _, _, _, _ => "bad-op"
+      match wlo.toNat?, whi.toNat?, floats tg, floats a, floats b, floats c, floats tr, nats e, nats lv with
+      | some wlo, some whi, some tg, some a, some b, some c, some tr, some ages, some lived =>
+        deAnswer (Float.ofBits wlo.toUInt64) (Float.ofBits whi.toUInt64) tg a b c tr ages lived
+      | _, _, _, _, _, _, _, _, _ => "bad-op"
+    | _ => "bad-op"
+  | [hd, cfg, p1, cands, off, l1, lc, ao, d] =>
+    match words hd with
+    | "GS" :: rest =>
+      match slotsOf rest, nats cfg, ints p1, intGenomes cands, ints off, nats l1, nats lc, nats ao, nats d with
+      | some ss, some [pcb, pmb, brood], some p1, some cands, some off, some [l1], some lc, some [ao],
+          some [dc, dm] =>
+        if cands.length ≠ lc.length then "bad-op"
+        else
+          let pc := Float.ofBits pcb.toUInt64
+          let pm := Float.ofBits pmb.toUInt64
+          let cs := (cands.zip lc).map fun (g, a) => mkGa g a
+          if pc == 1.0 ∧ dc = 0 then "bad p_cross=1-without-crossover"
+          else if pc == 0.0 ∧ dc ≠ 0 then "bad p_cross=0-with-crossover"
+          else if pm == 0.0 ∧ dm ≠ 0 then "bad p_mutation=0-with-mutations"
+          else if decide (GsStep ss brood ⟨p1, l1⟩ cs ⟨off, ao⟩ dc dm) then "ok" else "bad GsStep"
+      | _, _, _, _, _, _, _, _, _ => "bad-op"
+    | ["DS", _p, wlo, whi] =>
+      -- DS p wlo whi | target | aCands | pop | off | livedT | livedACands | livedPop | ageOff
+      match wlo.toNat?, whi.toNat?, floats cfg, floatGenomes p1, floatGenomes cands, floats off, nats l1, nats lc,
+            nats ao, nats d with
+      | some wlo, some whi, some tg, some aC, some pop, some off, some [lT], some lA, some lP, some [ageOff] =>
+        dsAnswer (Float.ofBits wlo.toUInt64) (Float.ofBits whi.toUInt64) tg aC pop off lT lA lP ageOff
+      | _, _, _, _, _, _, _, _, _, _ => "bad-op"
     | _ => "bad-op"
   | _ => "bad-op"
 
